@@ -317,6 +317,9 @@ pub fn value_leaves(thorough: bool) -> Vec<RefVal> {
 }
 
 pub fn run(rep: &Report) -> serde_json::Value {
+    // decoding must be a function of the input alone (no state left behind by rejected inputs)
+    let hist = crate::hist::history_independence(rep);
+    rep.set_extra("history_independence", hist);
     let cx = Cx { rep, seen: Mutex::new(HashSet::new()) };
     let thorough = rep.thorough();
     let leaves = value_leaves(thorough);
